@@ -40,6 +40,15 @@ pub fn run(tier: Tier) -> i32 {
                     }
                 }
             }
+            // structured ranks from a million on (where the speller reaches them): millions group x the rest
+            for m in [1u64, 2, 3, 10, 11, 21, 99, 100, 101, 110, 200, 300, 900, 999] {
+                for rest in [0u64, 1, 2, 21, 100, 101, 1000, 1001, 2000, 21_000, 100_000, 100_001, 999_999] {
+                    let n = m * 1_000_000 + rest;
+                    if n > cap && n <= ordspell::max_rank(l) {
+                        list.push(n);
+                    }
+                }
+            }
             for part in list.chunks(80) {
                 shards.push(Shard { l, lo: 0, hi: 0, list: part.to_vec() });
             }
